@@ -768,5 +768,44 @@ theorem stepBody_idle (m : Model) (p : Params) (s : St)
       (chkWorking m (allocate m s.logs p.rule l1)).tstate t ≠ .finished) ↔ _
     rcases hs3 with e | e <;> rcases hs2 with e' | e' <;> simp [e, e']
 
+/-- `check_state(WORKING)` keeps a READY/WORKING task READY/WORKING and the allocation lists, so
+it does not change the answer of `can_add_resources(worker=w)` -/
+theorem chkWorking_canAdd (m : Model) (l : Live) (t w : Nat)
+    (hs : l.tstate t = .ready ∨ l.tstate t = .working) :
+    canAdd m (chkWorking m l) t (some w) Option.none = canAdd m l t (some w) Option.none := by
+  have hfr := Alloc.chkWorking_frame m l
+  apply canAdd_congr
+  · rw [hfr.1]
+  · rw [hfr.2.1]
+  · rcases Alloc.chkWorking_tstate_cases m l t with e | ⟨_, e⟩
+    · rw [e]
+    · rcases hs with e' | e' <;> simp [e, e']
+
+/-- the no-inversion clause read at the end of a working step -/
+theorem stepBody_no_inversion (m : Model) (p : Params) (s : St)
+    (hwork : p.absence.contains s.time = false) (t1 t2 w : Nat)
+    (hord : List.Sublist [t1, t2] (sortTasks m s.live s.logs p.rule (cands m s.live)))
+    (hna : (m.task t1).isAuto = false) (hnf : (m.task t1).needFac = false)
+    (hnew : w ∈ (stepBody m p s).live.allocW t2) (hold : w ∉ s.live.allocW t2)
+    (hskill : hasSkill (m.worker w).skills (m.task t1).name = true)
+    (hteam : teamTargets m w t1 = true) :
+    canAdd m (stepBody m p s).live t1 (some w) Option.none = false := by
+  rw [Alloc.stepBody_live] at hnew ⊢
+  simp only [hwork, Bool.not_false, if_true] at hnew ⊢
+  have hord1 : List.Sublist [t1, t2] (sortTasks m (absenceSet m s.time true s.live) s.logs p.rule
+      (cands m (absenceSet m s.time true s.live))) := hord
+  have hold1 : w ∉ (absenceSet m s.time true s.live).allocW t2 := hold
+  generalize absenceSet m s.time true s.live = l1 at *
+  have hfr := Alloc.chkWorking_frame m (allocate m s.logs p.rule l1)
+  have hnew2 : w ∈ (allocate m s.logs p.rule l1).allocW t2 := by
+    have : w ∈ (chkWorking m (allocate m s.logs p.rule l1)).allocW t2 := hnew
+    rwa [hfr.1] at this
+  have hc := allocate_no_inversion m s.logs p.rule l1 t1 t2 w hord1 hna hnf hnew2 hold1 hskill hteam
+  have ht1 : l1.tstate t1 = .ready ∨ l1.tstate t1 = .working :=
+    (mem_cands.mp (Sort.mem_sortTasks.mp (hord1.subset List.mem_cons_self))).2
+  rw [← (allocate_grow m s.logs p.rule l1).ts] at ht1
+  rw [← hc, ← chkWorking_canAdd m (allocate m s.logs p.rule l1) t1 w ht1]
+  exact canAdd_congr rfl rfl Iff.rfl
+
 end NoWait
 end PDesy
